@@ -342,7 +342,11 @@ class HashComputer:
 
 
 def updatedependencies(
-    dependencies, value: "Config", path: List[str], taskids: Set[int]
+    dependencies,
+    value: "Config",
+    path: List[str],
+    taskids: Set[int],
+    visited: Optional[Set[int]] = None,
 ):
     """Search recursively jobs to add them as dependencies
 
@@ -351,18 +355,21 @@ def updatedependencies(
         value: The current inspected configuration
         path: The current path (for error tracing)
         taskids: Sets of added tasks (ids) to avoid repeated depencies
+        visited: Sets of visited configurations (ids) to avoid loops
     """
+    if visited is None:
+        visited = set()
 
     # Adds pre-tasks
     if isinstance(value, Config):
-        value.__xpm__.updatedependencies(dependencies, path, taskids)
+        value.__xpm__.updatedependencies(dependencies, path, taskids, visited)
     elif isinstance(value, (list, set)):
         for el in value:
-            updatedependencies(dependencies, el, path, taskids)
+            updatedependencies(dependencies, el, path, taskids, visited)
     elif isinstance(value, (dict,)):
         for key, val in value.items():
-            updatedependencies(dependencies, key, path, taskids)
-            updatedependencies(dependencies, val, path, taskids)
+            updatedependencies(dependencies, key, path, taskids, visited)
+            updatedependencies(dependencies, val, path, taskids, visited)
     elif isinstance(value, (str, int, float, Path, Enum)):
         pass
     else:
@@ -871,17 +878,25 @@ class ConfigInformation:
         dependencies: Set["experimaestro.dependencies.Dependency"],
         path: List[str],
         taskids: Set[int],
+        visited: Optional[Set[int]] = None,
     ):
+        # Each configuration is visited once (the graph can contain cycles)
+        if visited is None:
+            visited = set()
+        if id(self.pyobject) in visited:
+            return
+        visited.add(id(self.pyobject))
+
         # Add pre-tasks
         for pre_task in self.pre_tasks:
             pre_task.__xpm__.updatedependencies(
-                dependencies, path + ["__pre_tasks__"], taskids
+                dependencies, path + ["__pre_tasks__"], taskids, visited
             )
 
         # Add initialization tasks
         for init_task in self.init_tasks:
             init_task.__xpm__.updatedependencies(
-                dependencies, path + ["__init_tasks__"], taskids
+                dependencies, path + ["__init_tasks__"], taskids, visited
             )
 
         # Check for an associated task (and not loaded)
@@ -895,7 +910,11 @@ class ConfigInformation:
                 try:
                     if value is not None:
                         updatedependencies(
-                            dependencies, value, path + [argument.name], taskids
+                            dependencies,
+                            value,
+                            path + [argument.name],
+                            taskids,
+                            visited,
                         )
                 except Exception:
                     logger.error("While setting %s", path + [argument.name])
